@@ -61,11 +61,14 @@ Next ==
               /\ bad' = IF \A i \in 1..Len(e.list) : Major(e.list[i]) \in okMajors THEN bad
                         ELSE Append(bad, [s |-> e.s, i |-> e.i, op |-> "majors", why |-> "major without usable subtype", fmt |-> 0, ch |-> 0, rate |-> 0])
               /\ UNCHANGED <<names, words, okMajors, listedMajors, ntuple, nopen>>
+         [] e.op \in {"crash", "timeout"} ->          \* a call of the grid never returned
+              /\ bad' = Append(bad, [s |-> e.s, i |-> e.i, op |-> e.op, why |-> e.op, fmt |-> 0, ch |-> 0, rate |-> 0])
+              /\ UNCHANGED <<names, words, okMajors, listedMajors, ntuple, nopen>>
          [] OTHER -> UNCHANGED <<bad, names, words, okMajors, listedMajors, ntuple, nopen>>
 
 TSpec == Init /\ [][Next]_vars
 
 Verdict == l = Len(Tr) + 1 =>
-    PrintT(<<"VERDICT", ToJson([bad |-> IF Len(bad) > 200 THEN SubSeq(bad, 1, 200) ELSE bad, nbad |-> Len(bad), scenarios |-> ntuple, events |-> ntuple, lines |-> Len(Tr), opened |-> nopen])>>)
+    PrintT(<<"VERDICT", ToJson([bad |-> IF Len(bad) > 20000 THEN SubSeq(bad, 1, 20000) ELSE bad, nbad |-> Len(bad), scenarios |-> ntuple, events |-> ntuple, lines |-> Len(Tr), opened |-> nopen])>>)
 Accepted == TLCGet("stats").diameter - 1 = Len(Tr)
 =============================================================================
